@@ -25,6 +25,11 @@ func getParser(br *bufio.Reader, file string) parser.Parser {
 
 func setDefineInfos(p *parser.Parser) {
 	for _, article := range eval.DefineInfoArticles {
+		// a method defined in a preloaded file has no row in this file
+		if article.P.FileName != p.FileName {
+			continue
+		}
+
 		ctx := article.Ctx
 
 		methodT := article.MethodT
